@@ -74,6 +74,13 @@ func newPair(seed string, o hist.FarmOpts, control bool) (*pair, error) {
 		return nil, err
 	}
 	p := &pair{S: s, prefix: s.PrefixFail}
+	if o.Restart && !s.W.R[0].Panicked {
+		// the subject was restarted since the prefix ran (real Prepare() on its data directory); a harness-side
+		// failure of the copy leaves the running incarnation in place
+		if nr, rerr := sim.Restart(s.W.R[0], s.W.C, "c18rs"); rerr == nil {
+			s.W.R[0] = nr
+		}
+	}
 	if control {
 		c, err := newFarm(seed, o)
 		if err != nil {
